@@ -55,7 +55,8 @@ pub struct C07Searches;
 
 fn search_position() -> BoxedStrategy<String> {
     prop_oneof![
-        5 => gen::cage_theme().prop_map(|r| gen::build(&r).fen()),
+        5 => gen::terminal_biased(),
+        3 => gen::cage_theme().prop_map(|r| gen::build(&r).fen()),
         3 => gen::pin_check_theme().prop_map(|r| gen::build(&r).fen()),
         3 => gen::endgame(5).prop_map(|r| gen::build(&r).fen()),
         2 => gen::placement(14).prop_map(|r| gen::build(&r).fen()),
@@ -301,6 +302,7 @@ impl Prop for C08Searches {
                 5 => gen::endgame(5).prop_map(move |r| zero(gen::build(&r))),
                 2 => gen::pawn_race().prop_map(move |r| zero(gen::build(&r))),
                 1 => gen::cage_theme().prop_map(move |r| zero(gen::build(&r))),
+                1 => gen::terminal_biased(),
                 1 => gen::placement(12).prop_map(move |r| zero(gen::build(&r))),
                 1 => gen::walk(50).prop_map(move |w| zero(gen::walk_end(&w))),
             ],
